@@ -208,6 +208,9 @@ Fixpoint reject_pos (s : state) (ls : list label) (k : nat) : option nat :=
    nothing after the terminating status), strangers change nothing, kill only before the reaped
    termination, no reap inside a spawn window, nothing undelivered when the thread blocks. *)
 Record mstate := { m_ints : list wrec; m_reaped : list Z; m_fork : option (Z * Z * Z) }.
+
+Definition got_termination (t : Z) (reaped : list Z) (l : list wrec) : bool :=
+  forallb (fun w => negb (w_thr w =? t) || Bool.eqb (w_dead w) (mem (w_pid w) reaped)) l.
 Definition minit : mstate := {| m_ints := []; m_reaped := []; m_fork := None |}.
 
 Definition mstep (m : mstate) (l : label) : option mstate :=
@@ -236,17 +239,15 @@ Definition mstep (m : mstate) (l : label) : option mstate :=
       | None => None
       end
   | WReap t pid st =>
-      match m_fork m with
-      | Some _ => None                                  (* a status change reaped inside a spawn window could be missed *)
-      | None =>
-          if mem pid (m_reaped m) then None
-          else
-            let gone := if is_dead st then pid :: m_reaped m else m_reaped m in
-            match find_pid pid (m_ints m) with
-            | Some p => Some {| m_ints := upd_rec (w_id p) (set_reap st) (m_ints m); m_reaped := gone; m_fork := None |}
-            | None => Some {| m_ints := m_ints m; m_reaped := gone; m_fork := None |}       (* stranger: nothing changes *)
-            end
-      end
+      let window := match m_fork m with Some (_, _, p) => p =? pid | None => false end in
+      if window then None           (* a status of the child being spawned is reaped before its interest is inserted: missed *)
+      else if mem pid (m_reaped m) then None
+      else
+        let gone := if is_dead st then pid :: m_reaped m else m_reaped m in
+        match find_pid pid (m_ints m) with
+        | Some p => Some {| m_ints := upd_rec (w_id p) (set_reap st) (m_ints m); m_reaped := gone; m_fork := m_fork m |}
+        | None => Some {| m_ints := m_ints m; m_reaped := gone; m_fork := m_fork m |}       (* stranger: nothing changes *)
+        end
   | WSteal t id =>
       match find id (m_ints m) with
       | Some w =>
@@ -278,7 +279,10 @@ Definition mstep (m : mstate) (l : label) : option mstate :=
           if Bool.eqb performed (negb (mem (w_pid w) (m_reaped m))) && Bool.eqb performed (negb (w_dead w)) then Some m else None
       | None => None
       end
-  | WBlock t => if quiet_thread t (m_ints m) then Some m else None
+  | WBlock t =>
+      (* at rest: everything reaped for t's interests is delivered, and an interest whose pid's termination has been
+         reaped has received that status (in particular a spawned child's, however quickly it exited) *)
+      if quiet_thread t (m_ints m) && got_termination t (m_reaped m) (m_ints m) then Some m else None
   end.
 
 Fixpoint mrun (m : mstate) (ls : list label) : option mstate :=
